@@ -140,7 +140,7 @@ impl E {
 /// Tokens of a rendered expression.
 #[derive(Clone, Debug, PartialEq)]
 pub enum Tok {
-    Lit(f64, String),
+    Lit(f64, String, Lit),
     Op(char),
     L,
     R,
@@ -156,7 +156,7 @@ fn is_bin(e: &E) -> Option<Op> {
 /// Render a tree to tokens, inserting the parentheses the usual rules require.
 pub fn to_tokens(e: &E, dec: &str, thou: &str, out: &mut Vec<Tok>) {
     match e {
-        E::Lit(l) => out.push(Tok::Lit(l.value(), l.render(dec, thou))),
+        E::Lit(l) => out.push(Tok::Lit(l.value(), l.render(dec, thou), l.clone())),
         E::Paren(inner) => {
             out.push(Tok::L);
             to_tokens(inner, dec, thou, out);
@@ -245,7 +245,7 @@ pub fn join(tokens: &[Tok], spaces: &[u8]) -> String {
             s.push(' ');
         }
         match t {
-            Tok::Lit(_, text) => s.push_str(text),
+            Tok::Lit(_, text, _) => s.push_str(text),
             Tok::Op(c) => s.push(*c),
             Tok::L => s.push('('),
             Tok::R => s.push(')'),
@@ -278,7 +278,7 @@ impl<'a> P<'a> {
     }
     fn primary(&mut self) -> Option<f64> {
         match self.peek()?.clone() {
-            Tok::Lit(v, _) => {
+            Tok::Lit(v, _, _) => {
                 self.i += 1;
                 Some(v)
             }
@@ -442,6 +442,29 @@ pub fn has_date_triple(line: &str, dec: &str, thou: &str) -> bool {
     false
 }
 
+/// the expression as a generic token line (for the metamorphic properties)
+pub fn to_line(e: &E) -> crate::lines::Line {
+    use crate::lines::{Class, Line, NumLit, Tok as LT};
+    let mut toks = vec![];
+    to_tokens(e, ",", ".", &mut toks);
+    let mut line = Line::default();
+    let mut prev_open = false;
+    for t in toks {
+        let mut lt = match t {
+            Tok::Lit(_, _, l) => LT::with("", NumLit { v: l.mant, sign: l.sign, group: l.group }, &l.suffix.map(|c| c.to_string()).unwrap_or_default(), Class::Number),
+            Tok::Op(c) => LT::op(c),
+            Tok::L => LT::op('('),
+            Tok::R => LT::op(')').sp(0),
+        };
+        if prev_open {
+            lt.space = 0;
+        }
+        prev_open = matches!(lt.class, Class::Paren) && lt.pre == "(";
+        line.push(lt);
+    }
+    line
+}
+
 // ---- the case --------------------------------------------------------------------------------
 
 #[derive(Clone, Debug, Serialize, Deserialize)]
@@ -519,7 +542,7 @@ impl Prop for Arith {
         let d_paren = differs(eval_ignoring_parens(&toks));
         let has_paren = toks.iter().any(|t| matches!(t, Tok::L));
         let has_juxt = toks.windows(2).any(|p| matches!((&p[0], &p[1]), (Tok::Lit(..), Tok::Lit(..))));
-        let has_suffix = toks.iter().any(|t| matches!(t, Tok::Lit(_, s) if s.chars().last().map_or(false, |c| c.is_ascii_alphabetic())));
+        let has_suffix = toks.iter().any(|t| matches!(t, Tok::Lit(_, s, _) if s.chars().last().map_or(false, |c| c.is_ascii_alphabetic())));
         let has_detached = (0..toks.len()).any(|i| matches!(&toks[i], Tok::Op('-') | Tok::Op('+')) && (i == 0 || matches!(&toks[i - 1], Tok::Op(_) | Tok::L)));
         let has_div0 = has_zero_division(&c.e);
         acc.finish(line)
